@@ -1,0 +1,35 @@
+// Licensed to Apache Software Foundation (ASF) under one or more contributor
+// license agreements. See the NOTICE file distributed with
+// this work for additional information regarding copyright
+// ownership. Apache Software Foundation (ASF) licenses this file to you under
+// the Apache License, Version 2.0 (the "License"); you may
+// not use this file except in compliance with the License.
+// You may obtain a copy of the License at
+//
+//     http://www.apache.org/licenses/LICENSE-2.0
+//
+// Unless required by applicable law or agreed to in writing,
+// software distributed under the License is distributed on an
+// "AS IS" BASIS, WITHOUT WARRANTIES OR CONDITIONS OF ANY
+// KIND, either express or implied.  See the License for the
+// specific language governing permissions and limitations
+// under the License.
+
+//go:build verif
+
+// Contracts for the generic iterator interface (comment-only; read by /verif/govc).
+
+package iter
+
+//@ section C09
+//
+// A result stream seen as a cursor: pos is the (ghost) number of items delivered so far, done records exhaustion.
+//@ type Iterator
+//@   ghost pos int
+//@   ghost done bool
+//@ func Iterator.Next
+//@   assumed interface method: delivers the next item of the stream, or reports exhaustion (and stays exhausted)
+//@   modifies recv.pos
+//@   modifies recv.done
+//@   ensures  result1 ==> !old(recv.done) && recv.pos == old(recv.pos) + 1 && !recv.done
+//@   ensures  !result1 ==> recv.done && recv.pos == old(recv.pos)
